@@ -611,17 +611,19 @@ func GenProgram(g *Tape, size int) *ProgSpec {
 			parent = "mid.tpl"
 		}
 		fmt.Fprintf(&mb, `{%% extends "%s" %%}`, parent)
-		if !threeLevel || g.Draw(3) == 0 {
+		if !threeLevel || g.Draw(3) == 0 || withComp {
 			mb.WriteString("{% block b1 %}")
+			if withComp {
+				// the component runs while the page is half rendered; the page's own b2 follows
+				mb.WriteString(`{% include "comp.tpl" with iv=s1 %}`)
+			}
 			if g.Draw(2) == 0 {
 				mb.WriteString("{{ block.Super }}")
 			}
 			p.body(&mb, 1)
 			mb.WriteString("{% endblock %}")
 		}
-		if withComp {
-			mb.WriteString(`{% block b2 %}child-b2:{% include "comp.tpl" with iv=s1 %}{{ y() }}{{ block.Super }}{% endblock b2 %}`)
-		} else if g.Draw(2) == 0 {
+		if withComp || g.Draw(2) == 0 {
 			mb.WriteString("{% block b2 %}child-b2:")
 			p.body(&mb, 1)
 			mb.WriteString("{{ block.Super|upper }}{% endblock b2 %}")
